@@ -22,6 +22,11 @@ def make_scene(r):
             amp = r.uniform(30, 120)
             sx, sy = r.uniform(1.0, 2.0), r.uniform(1.0, 2.0)
             img += amp * np.exp(-0.5 * (((xx - x0 - dx) / sx) ** 2 + ((yy - y0 - dy) / sy) ** 2))
+        if r.random() < 0.5:
+            # a faint companion: separated by the exponential / sinh levels, but below the first linear level
+            ang = r.uniform(0, 2 * np.pi)
+            dist = r.uniform(5.0, 7.0)
+            img += r.uniform(4, 9) * np.exp(-0.5 * (((xx - x0 - dist * np.cos(ang)) / 1.2) ** 2 + ((yy - y0 - dist * np.sin(ang)) / 1.2) ** 2))
     if r.random() < 0.3:
         img -= 0.5          # negative pixels -> 'nonposmin' branch for exponential mode
     img = np.round(img * 16) / 16
@@ -82,11 +87,12 @@ def per_source_results(data, segm, labels_sel, params):
     from photutils.segmentation.deblend import _deblend_source, _DeblendParams
     from photutils.segmentation.utils import _make_binary_structure
     fp = _make_binary_structure(2, params['connectivity'])
-    dp = _DeblendParams(params['npixels'], fp, params['nlevels'], params['contrast'], params['mode'])
     res = {}
     for lab in labels_sel:
         idx = segm.get_index(lab)
         slc = segm.slices[idx]
+        # fresh parameters for every parent: a parent's partition depends on that parent only
+        dp = _DeblendParams(params['npixels'], fp, params['nlevels'], params['contrast'], params['mode'])
         with warnings.catch_warnings():
             warnings.simplefilter('ignore')
             sd, _ = _deblend_source(data[slc], segm.data[slc], lab, dp)
@@ -166,9 +172,20 @@ def run(rep, tier):
             continue
         if r.random() < 0.3 and segm.nlabels > 1:      # label gaps
             segm.remove_label(int(r.choice(list(segm.labels))))
+        nonpos = segm.nlabels >= 2 and r.random() < 0.45
+        if nonpos:
+            # a parent with non-positive pixels (data measured against a different background than the detection image):
+            # the exponential / sinh modes fall back to linear thresholds for THAT parent only
+            p0 = int(segm.labels[0])
+            sel0 = segm.data == p0
+            img = img.copy()
+            img[sel0] -= float(img[sel0].min()) + r.choice([0.0, 0.25])
         params = dict(npixels=npix, nlevels=r.choice([4, 16, 32]), contrast=r.choice([0.0, 0.001, 0.001, 0.001, 0.3, 0.001, 0.0, 1.0]),
                       mode=r.choice(['exponential', 'linear', 'sinh']), connectivity=conn,
                       relabel=r.random() < 0.6)
+        if nonpos and r.random() < 0.8:
+            # the fallback to linear thresholds must stay confined to the parent that needs it
+            params.update(mode=r.choice(['exponential', 'sinh']), nlevels=32, contrast=r.choice([0.001, 0.0]))
         labels_arg = None
         if r.random() < 0.35 and segm.nlabels > 0:
             labels_arg = sorted(r.sample([int(v) for v in segm.labels], r.randint(1, segm.nlabels)))
